@@ -24,7 +24,7 @@ namespace {
 struct Cover {
     uint64_t trees = 0, nodes = 0, dirs = 0, files = 0, emptyDirs = 0, queries = 0, missingProbes = 0, relativeQueries = 0, trailingSepQueries = 0;
     uint64_t deepChains = 0, longestCwd = 0, bigDirs = 0, visitorReuses = 0;
-    uint64_t strings = 0, identities = 0, absoluteJoins = 0, arbitraryStrings = 0, visitors = 0, nestedVisitors = 0, bytesInFiles = 0, oddNames = 0, nontrivialCases = 0;
+    uint64_t strings = 0, identities = 0, absoluteJoins = 0, arbitraryStrings = 0, visitors = 0, nestedVisitors = 0, bytesInFiles = 0, oddNames = 0, nontrivialCases = 0, randomSegments = 0, descriptorChecks = 0;
     std::vector<uint64_t> fps;
     std::vector<std::string> samples;
 } C;
@@ -53,7 +53,8 @@ std::string randomName(rt::Rng &rng, std::set<std::string> &used) {
     for (;;) {
         std::string n;
         unsigned k = (unsigned) rng.below(100);
-        if (k < 45) { size_t len = 1 + rng.below(8); for (size_t i = 0; i < len; ++i) n += (char) ('a' + rng.below(26)); }
+        if (k < 6) { n = std::string(1, "cC9x:"[rng.below(5)]) + ":"; size_t len = rng.below(5); for (size_t i = 0; i < len; ++i) n += "41.pngZ: "[rng.below(9)]; ++C.oddNames; }   // "c:", "9:41.png"
+        else if (k < 45) { size_t len = 1 + rng.below(8); for (size_t i = 0; i < len; ++i) n += (char) ('a' + rng.below(26)); }
         else if (k < 55) n = "with space " + std::to_string(rng.below(50));
         else if (k < 63) n = "." + std::string(1 + rng.below(5), (char) ('a' + rng.below(26)));            // leading dot
         else if (k < 70) n = std::string(1 + rng.below(3), '.') + "x" + std::string(rng.below(3), '.');     // dots
@@ -335,7 +336,14 @@ void treeCase(uint64_t c, rt::Rng rng, const std::string &base) {
 
 std::string segment(rt::Rng &rng) {
     static const char *s[] = {"a", "dir", "with space", ".hidden", "x.y", "..", ".", "\xd1\x84", "LONG-segment-0123456789", "a.b.c", "-", "~"};
-    return s[rng.below(12)];
+    if (rng.chance(650)) return s[rng.below(12)];
+    // any bytes but the separators: drive-letter look-alikes ("c:", "9:41.png"), punctuation, spaces
+    static const char cs[] = "abcCZ019:;.-_ ~%@+#=,()[]{}!$&'^`*?<>|\"";
+    std::string n;
+    size_t len = 1 + rng.below(6);
+    for (size_t i = 0; i < len; ++i) n += cs[rng.below(sizeof cs - 1)];
+    ++C.randomSegments;
+    return n;
 }
 
 void stringCase(uint64_t c, rt::Rng rng) {
@@ -398,6 +406,13 @@ void stringCase(uint64_t c, rt::Rng rng) {
 
 } // namespace
 
+size_t openDescriptors() {
+    size_t n = 0;
+    std::error_code ec;
+    for (auto it = fs::directory_iterator("/proc/self/fd", ec); !ec && it != fs::directory_iterator(); it.increment(ec)) ++n;
+    return n;
+}
+
 int main(int argc, char **argv) {
     rt::init(argc, argv);
     std::string base = fs::absolute("h_path_" + std::to_string(getpid())).string();
@@ -406,16 +421,23 @@ int main(int argc, char **argv) {
         rt::setCase(c);
         gCaseFailed = false;
         rt::Rng rng(rt::mix(rt::st().seed, c));
+        size_t fdsBefore = openDescriptors();
         if (c % 10 == 4) deepCase(c, rng, base);
         else if (c % 2 == 0) treeCase(c, rng, base);
         else stringCase(c, rng);
+        // queries leave nothing open behind them: a descriptor lost per measured directory or per failed probe ends, some
+        // thousand queries later, in sizes and existence answers that no longer agree with the filesystem
+        size_t fdsAfter = openDescriptors();
+        ++C.descriptorChecks;
+        if (!gCaseFailed && fdsAfter > fdsBefore)
+            fail("descriptor-leak", "case", std::to_string(fdsAfter - fdsBefore) + " file descriptor(s) stayed open after the queries of this case (" + std::to_string(fdsBefore) + " -> " + std::to_string(fdsAfter) + ")");
     }
     std::error_code ec;
     fs::remove_all(base, ec);
     rt::dumpFingerprints(C.fps);
     rt::finish(rt::Json().kv("engine", "h_path").kv("trees", C.trees).kv("nodes", C.nodes).kv("directories", C.dirs).kv("files", C.files)
                    .kv("emptyDirectories", C.emptyDirs).kv("nodeQueries", C.queries).kv("relativeQueries", C.relativeQueries)
-                   .kv("trailingSeparatorQueries", C.trailingSepQueries).kv("missingPathProbes", C.missingProbes).kv("oddNames", C.oddNames)
+                   .kv("trailingSeparatorQueries", C.trailingSepQueries).kv("missingPathProbes", C.missingProbes).kv("oddNames", C.oddNames).kv("randomSegments", C.randomSegments).kv("descriptorChecks", C.descriptorChecks)
                    .kv("bytesInFiles", C.bytesInFiles).kv("pathStrings", C.strings).kv("identitiesChecked", C.identities).kv("absoluteJoins", C.absoluteJoins)
                    .kv("arbitraryStrings", C.arbitraryStrings).kv("visitors", C.visitors).kv("nestedVisitors", C.nestedVisitors).kv("deepChains", C.deepChains).kv("directoriesOver2GiB", C.bigDirs).kv("visitorObjectsReused", C.visitorReuses).kv("maxCwdBytes", C.longestCwd)
                    .kv("nontrivialCases", C.nontrivialCases).raw("samples", rt::jsonArray(C.samples, false)));
